@@ -699,8 +699,6 @@ def r071(F, P, rep):
             continue
         cmp_kind = kind in ('ND_LT', 'ND_LE')
         tnames = ['int', 'uint', 'long', 'ulong', 'enum'] + (['ptr'] if cmp_kind else [])
-        if kind == 'ND_SHR':
-            tnames += ['bool', 'char', 'uchar', 'short', 'ushort']    # add_type gives a shift the unpromoted type of its left operand
         bad = {}      # construct -> message
         und = None
         checked = 0
